@@ -11,7 +11,9 @@ From Coq Require Import ZifyN ZifyBool.
 From Verif Require Import Common.GoInt Gen.StakerTime Staker.Model.
 Open Scope Z_scope.
 
-Ltac Zify.zify_post_hook ::= Z.div_mod_to_equations.
+(* linear arithmetic, with / and mod turned into their defining equations when needed (no global zify hook: it interferes with
+   the boolean reasoning of ZifyBool) *)
+Ltac dlia := first [ lia | Z.div_mod_to_equations; lia ].
 
 Definition u8 (x : Z) : Prop := 0 <= x < 256.
 Definition u32 (x : Z) : Prop := 0 <= x < 4294967296.
@@ -30,17 +32,115 @@ Proof.
   apply Z.div_le_upper_bound; [lia|]. nia.
 Qed.
 
+(* ================================================================== (0) characterisations
+   The ONLY lemmas that look inside the generated definitions.  Each states the complete behaviour of one translated function
+   in plain arithmetic (a wrap is an explicit `mod 2^32` / `mod 2^64`) and is proved by one generic tactic — case analysis on
+   every `if` / `match` of the generated term, removal of the wraps that provably do not wrap, linear arithmetic — so that a
+   behaviour-preserving rewrite of the Go function inside the fragment keeps the proof, and a behaviour change breaks it.
+   Everything below (specifications, agreement with the model) is derived from these statements only. *)
+
+Ltac case_step :=
+  match goal with
+  | H : Some _ = Some _ |- _ => injection H as H
+  | H : Some _ = None |- _ => discriminate H
+  | H : None = Some _ |- _ => discriminate H
+  | |- context [match ?x with _ => _ end] => destruct x eqn:?
+  | H : context [match ?x with _ => _ end] |- _ => destruct x eqn:?
+  end.
+
+Ltac pose_div_bounds :=
+  repeat match goal with
+  | |- context [?a / ?b] =>
+    lazymatch b with Zpos _ => fail | _ => idtac end;
+    lazymatch goal with H : 0 <= a / b <= a |- _ => fail | _ => idtac end;
+    pose proof (div_le_self a b ltac:(unwrap; dlia) ltac:(unwrap; dlia))
+  end.
+
+Ltac drop_wraps :=
+  repeat match goal with
+  | |- context [wrapU 32 ?x] => rewrite (wrap32_small x) by (unfold u32; unwrap; dlia)
+  | |- context [wrapU 64 ?x] => rewrite (wrap64_small x) by (unfold u64; unwrap; dlia)
+  end.
+
+Ltac fin := first [ reflexivity | discriminate | solve [exfalso; unwrap; dlia] | solve [f_equal; unwrap; dlia] | solve [unwrap; dlia] ].
+
+Ltac gen_crush :=
+  cbv zeta; repeat case_step; cbv zeta; pose_div_bounds; drop_wraps; pose_div_bounds; drop_wraps; unwrap; fin.
+
+Theorem current_iteration_char P CP St S c : u32 S -> u32 c ->
+  Validation_CurrentIteration P CP St S c =
+  if (St =? 0) || (St =? 1) then Some 0
+  else if (St =? 3) || (0 <? CP) then Some CP
+  else if (c <? S) || (P =? 0) then None
+  else Some (((c - S) / P + 1) mod 4294967296).
+Proof. unfold u32. intros HS Hc. unfold Validation_CurrentIteration. gen_crush. Qed.
+
+Theorem completed_iterations_char P CP St S c :
+  Validation_CompletedIterations P CP St S c =
+  if (St =? 0) || (St =? 1) then Some 0
+  else if St =? 3 then Some CP
+  else match Validation_CurrentIteration P CP St S c with None => None | Some it => Some ((it - 1) mod 4294967296) end.
+Proof. unfold Validation_CompletedIterations. gen_crush. Qed.
+
+Theorem is_period_end_char P S c :
+  Validation_IsPeriodEnd P S c = (((c - S) mod 4294967296) mod P =? 0).
+Proof. unfold Validation_IsPeriodEnd. gen_crush. Qed.
+
+Theorem cooldown_ended_char cd X c :
+  Validation_CooldownEnded cd X c = match X with None => false | Some E => (E + cd) mod 4294967296 <=? c end.
+Proof. unfold Validation_CooldownEnded. gen_crush. Qed.
+
+Theorem withdrawable_char cd X Q CD W c : u64 W -> u64 CD -> u64 Q ->
+  Validation_CalculateWithdrawableVET cd X Q CD W c =
+  (W + (match X with None => 0 | Some E => if (E + cd) mod 4294967296 <=? c then CD else 0 end) + Q) mod 18446744073709551616.
+Proof. unfold u64. intros HW HCD HQ. unfold Validation_CalculateWithdrawableVET, Validation_CooldownEnded. gen_crush. Qed.
+
+Theorem is_online_spec X : Validation_IsOnline X = match X with None => true | Some _ => false end.
+Proof. unfold Validation_IsOnline. gen_crush. Qed.
+
+Theorem multiplier_spec L W : Validation_multiplier L W = if W =? L then 100 else 200.
+Proof. unfold Validation_multiplier. gen_crush. Qed.
+
+Theorem next_period_tvl_char L PU Q : u64 L -> u64 Q -> u64 PU ->
+  Validation_NextPeriodTVL L PU Q =
+  if (L + Q) mod 18446744073709551616 <? PU then None else Some ((L + Q) mod 18446744073709551616 - PU).
+Proof. unfold u64. intros HL HQ HPU. unfold Validation_NextPeriodTVL. gen_crush. Qed.
+
+Theorem started_spec F P CP St S c :
+  Delegation_Started F P CP St S c =
+  if (St =? 1) || (St =? 0) then Some false
+  else match Validation_CurrentIteration P CP St S c with None => None | Some it => Some (F <=? it) end.
+Proof. unfold Delegation_Started. gen_crush. Qed.
+
+Theorem ended_char L F P CP St S c :
+  Delegation_Ended L F P CP St S c =
+  if St =? 1 then Some false
+  else match Validation_CurrentIteration P CP St S c with
+       | None => None
+       | Some it => Some (((St =? 3) && negb (St =? 0) && (F <=? it)) || match L with None => false | Some l => l <? it end)
+       end.
+Proof. unfold Delegation_Ended, Delegation_Started. gen_crush. Qed.
+
+Theorem is_locked_spec Stk L F P CP St S c :
+  Delegation_IsLocked Stk L F P CP St S c =
+  if Stk =? 0 then Some false
+  else match Delegation_Started F P CP St S c, Delegation_Ended L F P CP St S c with
+       | Some s, Some e => Some (s && negb e)
+       | _, _ => None
+       end.
+Proof. unfold Delegation_IsLocked. gen_crush. Qed.
+
 (* ================================================================== (a) specifications *)
 
 (* ---- Validation.CurrentIteration *)
 
 (* Unknown / Queued: 0;  Exit: the stored count;  Active after signal-exit (CompletedPeriods > 0): the stored count *)
-Theorem current_iteration_not_running P CP St S c :
+Theorem current_iteration_not_running P CP St S c : u32 S -> u32 c ->
   (St = 0 \/ St = 1 -> Validation_CurrentIteration P CP St S c = Some 0) /\
   (St = 3 -> Validation_CurrentIteration P CP St S c = Some CP) /\
   (St <> 0 -> St <> 1 -> 0 < CP -> Validation_CurrentIteration P CP St S c = Some CP).
 Proof.
-  unfold Validation_CurrentIteration. repeat split.
+  intros HS Hc. rewrite current_iteration_char by assumption. repeat split.
   - intros [-> | ->]; reflexivity.
   - intros ->. reflexivity.
   - intros H0 H1 H. destruct (St =? 0) eqn:E0; [lia|]. destruct (St =? 1) eqn:E1; [lia|]. cbn [orb].
@@ -48,10 +148,10 @@ Proof.
 Qed.
 
 (* Active, no exit signalled: the errors … *)
-Theorem current_iteration_active_errors P St S c :
+Theorem current_iteration_active_errors P St S c : u32 S -> u32 c ->
   St <> 0 -> St <> 1 -> St <> 3 -> (c < S \/ P = 0) -> Validation_CurrentIteration P 0 St S c = None.
 Proof.
-  intros H0 H1 H3 H. unfold Validation_CurrentIteration.
+  intros HS Hc H0 H1 H3 H. rewrite current_iteration_char by assumption.
   destruct (St =? 0) eqn:E0; [lia|]. destruct (St =? 1) eqn:E1; [lia|]. destruct (St =? 3) eqn:E3; [lia|]. cbn [orb].
   change (0 <? 0) with false. cbv iota.
   destruct (c <? S) eqn:E; [reflexivity|]. destruct (P =? 0) eqn:EP; [reflexivity|lia].
@@ -62,13 +162,12 @@ Theorem current_iteration_active_spec P St S c :
   St <> 0 -> St <> 1 -> St <> 3 -> u32 P -> u32 S -> u32 c -> 0 < P -> S <= c -> (c - S) / P + 1 < 4294967296 ->
   Validation_CurrentIteration P 0 St S c = Some ((c - S) / P + 1).
 Proof.
-  unfold u32. intros H0 H1 H3 HP HS Hc HP0 HSc Hfit. unfold Validation_CurrentIteration.
+  intros H0 H1 H3 HP HS Hc HP0 HSc Hfit. rewrite current_iteration_char by assumption. unfold u32 in *.
   destruct (St =? 0) eqn:E0; [lia|]. destruct (St =? 1) eqn:E1; [lia|]. destruct (St =? 3) eqn:E3; [lia|]. cbn [orb].
   change (0 <? 0) with false. cbv iota.
-  destruct (c <? S) eqn:E; [lia|]. destruct (P =? 0) eqn:EP; [lia|]. cbv zeta.
-  rewrite (wrap32_small (c - S)) by (unfold u32; lia).
+  destruct (c <? S) eqn:E; [lia|]. destruct (P =? 0) eqn:EP; [lia|]. cbn [orb]. cbv iota.
   pose proof (div_le_self (c - S) P ltac:(lia) HP0).
-  rewrite wrap32_small by (unfold u32; lia). reflexivity.
+  rewrite Z.mod_small by lia. reflexivity.
 Qed.
 
 (* the hypothesis "fits" holds for every block number below 2^32 - 1 — the only wrapping input is
@@ -90,44 +189,40 @@ Theorem current_iteration_monotone P CP St S c c' a :
   Validation_CurrentIteration P CP St S c = Some a ->
   exists b, Validation_CurrentIteration P CP St S c' = Some b /\ a <= b.
 Proof.
-  unfold u32. intros HP HS Hc Hcc Hc'. unfold Validation_CurrentIteration.
+  intros HP HS Hc Hcc Hc'. rewrite !current_iteration_char by (unfold u32 in *; lia). unfold u32 in *.
   destruct ((St =? 0) || (St =? 1)); [intros [= <-]; exists 0; split; [reflexivity|lia]|].
-  destruct (St =? 3); [intros [= <-]; exists CP; split; [reflexivity|lia]|].
-  destruct (0 <? CP); [intros [= <-]; exists CP; split; [reflexivity|lia]|].
+  destruct ((St =? 3) || (0 <? CP)); [intros [= <-]; exists CP; split; [reflexivity|lia]|].
   destruct (c <? S) eqn:E; [discriminate|]. destruct (c' <? S) eqn:E'; [lia|].
-  destruct (P =? 0) eqn:EP; [discriminate|]. cbv zeta.
-  rewrite (wrap32_small (c - S)), (wrap32_small (c' - S)) by (unfold u32; lia).
+  destruct (P =? 0) eqn:EP; [discriminate|]. cbn [orb]. cbv iota.
   pose proof (div_le_self (c - S) P ltac:(lia) ltac:(lia)).
   pose proof (div_le_self (c' - S) P ltac:(lia) ltac:(lia)).
-  rewrite !wrap32_small by (unfold u32; lia). intros [= <-].
+  rewrite !Z.mod_small by lia. intros [= <-].
   eexists; split; [reflexivity|].
   pose proof (Z.div_le_mono (c - S) (c' - S) P ltac:(lia) ltac:(lia)). lia.
 Qed.
 
 (* ---- Validation.CompletedIterations *)
 
-Theorem completed_iterations_spec P CP St S c :
+Theorem completed_iterations_spec P CP St S c : u32 S -> u32 c ->
   (St = 0 \/ St = 1 -> Validation_CompletedIterations P CP St S c = Some 0) /\
   (St = 3 -> Validation_CompletedIterations P CP St S c = Some CP) /\
   (St <> 0 -> St <> 1 -> St <> 3 -> u32 CP -> 0 < CP -> Validation_CompletedIterations P CP St S c = Some (CP - 1)) /\
-  (St <> 0 -> St <> 1 -> St <> 3 -> CP = 0 -> u32 P -> u32 S -> u32 c -> 0 < P -> S <= c ->
+  (St <> 0 -> St <> 1 -> St <> 3 -> CP = 0 -> u32 P -> 0 < P -> S <= c ->
      Validation_CompletedIterations P CP St S c = Some ((c - S) / P)).
 Proof.
-  unfold Validation_CompletedIterations, u32. repeat split.
+  intros HS Hc. rewrite completed_iterations_char, current_iteration_char by assumption. unfold u32 in *. repeat split.
   - intros [-> | ->]; reflexivity.
   - intros ->. reflexivity.
   - intros H0 H1 H3 HCP H.
     destruct (St =? 0) eqn:E0; [lia|]. destruct (St =? 1) eqn:E1; [lia|]. destruct (St =? 3) eqn:E3; [lia|]. cbn [orb].
-    destruct (current_iteration_not_running P CP St S c) as [_ [_ K]]. rewrite K by lia.
-    rewrite wrap32_small by (unfold u32; lia). reflexivity.
-  - intros H0 H1 H3 -> HP HS Hc HP0 HSc.
+    destruct (0 <? CP) eqn:E; [|lia]. rewrite Z.mod_small by lia. reflexivity.
+  - intros H0 H1 H3 -> HP HP0 HSc.
     destruct (St =? 0) eqn:E0; [lia|]. destruct (St =? 1) eqn:E1; [lia|]. destruct (St =? 3) eqn:E3; [lia|]. cbn [orb].
-    (* even on the wrapping input the +1 / -1 cancel modulo 2^32 *)
-    unfold Validation_CurrentIteration. rewrite E0, E1, E3. cbn [orb]. change (0 <? 0) with false. cbv iota.
-    destruct (c <? S) eqn:E; [lia|]. destruct (P =? 0) eqn:EP; [lia|]. cbv zeta.
-    rewrite (wrap32_small (c - S)) by (unfold u32; lia).
+    change (0 <? 0) with false. cbv iota.
+    destruct (c <? S) eqn:E; [lia|]. destruct (P =? 0) eqn:EP; [lia|]. cbn [orb]. cbv iota.
     pose proof (div_le_self (c - S) P ltac:(lia) HP0) as Hd.
-    f_equal. unwrap.
+    (* even on the wrapping input the +1 / -1 cancel modulo 2^32 *)
+    f_equal.
     destruct (Z.eq_dec ((c - S) / P) 4294967295) as [Eq|Ne].
     + rewrite Eq. reflexivity.
     + rewrite (Z.mod_small ((c - S) / P + 1)) by lia. rewrite Z.mod_small by lia. lia.
@@ -138,8 +233,8 @@ Qed.
 Theorem is_period_end_spec P S c : u32 S -> u32 c -> S <= c -> 0 < P ->
   (Validation_IsPeriodEnd P S c = true <-> (c - S) mod P = 0).
 Proof.
-  unfold u32. intros HS Hc HSc HP. unfold Validation_IsPeriodEnd. cbv zeta.
-  rewrite wrap32_small by (unfold u32; lia). apply Z.eqb_eq.
+  unfold u32. intros HS Hc HSc HP. rewrite is_period_end_char.
+  rewrite (Z.mod_small (c - S)) by lia. apply Z.eqb_eq.
 Qed.
 
 (* a period ends exactly at the blocks where the iteration number advances *)
@@ -156,7 +251,7 @@ Qed.
 Theorem is_period_end_before_start P S c : u32 S -> u32 c -> c < S ->
   Validation_IsPeriodEnd P S c = ((4294967296 + c - S) mod P =? 0).
 Proof.
-  unfold u32. intros HS Hc HcS. unfold Validation_IsPeriodEnd. cbv zeta. f_equal. f_equal. unwrap.
+  unfold u32. intros HS Hc HcS. rewrite is_period_end_char. f_equal. f_equal.
   replace (c - S) with ((4294967296 + c - S) + (-1) * 4294967296) by lia.
   rewrite Z.mod_add by lia. apply Z.mod_small. lia.
 Qed.
@@ -167,22 +262,22 @@ Theorem cooldown_ended_spec cd E c :
   Validation_CooldownEnded cd None c = false /\
   (u32 (E + cd) -> Validation_CooldownEnded cd (Some E) c = (E + cd <=? c)).
 Proof.
-  split; [reflexivity|]. intros H. unfold Validation_CooldownEnded. rewrite wrap32_small by exact H. reflexivity.
+  rewrite !cooldown_ended_char. split; [reflexivity|]. unfold u32. intros H. rewrite Z.mod_small by lia. reflexivity.
 Qed.
 
 (* no range hypothesis: the (possibly wrapped) deadline does not depend on the block *)
 Theorem cooldown_ended_monotone cd X c c' : c <= c' ->
   Validation_CooldownEnded cd X c = true -> Validation_CooldownEnded cd X c' = true.
 Proof.
-  intros Hcc. unfold Validation_CooldownEnded. destruct X as [E|]; [|discriminate].
+  intros Hcc. rewrite !cooldown_ended_char. destruct X as [E|]; [|discriminate].
   rewrite !Z.leb_le. lia.
 Qed.
 
 Theorem withdrawable_spec cd X Q CD W c : 0 <= W -> 0 <= CD -> 0 <= Q -> W + CD + Q < 18446744073709551616 ->
   Validation_CalculateWithdrawableVET cd X Q CD W c = W + (if Validation_CooldownEnded cd X c then CD else 0) + Q.
 Proof.
-  intros HW HCD HQ Hfit. unfold Validation_CalculateWithdrawableVET. cbv zeta.
-  destruct (Validation_CooldownEnded cd X c); rewrite !wrap64_small by (unfold u64; try rewrite wrap64_small by (unfold u64; lia); lia); lia.
+  intros HW HCD HQ Hfit. rewrite withdrawable_char, cooldown_ended_char by (unfold u64; lia).
+  destruct X as [E|]; [destruct ((E + cd) mod 4294967296 <=? c)|]; apply Z.mod_small; lia.
 Qed.
 
 Theorem withdrawable_monotone cd X Q CD W c c' : 0 <= W -> 0 <= CD -> 0 <= Q -> W + CD + Q < 18446744073709551616 -> c <= c' ->
@@ -194,28 +289,15 @@ Proof.
   - destruct (Validation_CooldownEnded cd X c'); lia.
 Qed.
 
-(* ---- Validation.IsOnline, multiplier, NextPeriodTVL *)
+(* ---- Validation.NextPeriodTVL *)
 
-Theorem is_online_spec X : Validation_IsOnline X = match X with None => true | Some _ => false end.
-Proof. destruct X; reflexivity. Qed.
-
-Theorem multiplier_spec L W : Validation_multiplier L W = if W =? L then 100 else 200.
-Proof. reflexivity. Qed.
-
-Theorem next_period_tvl_spec L PU Q : 0 <= L -> 0 <= Q -> 0 <= PU -> L + Q < 18446744073709551616 ->
+Theorem next_period_tvl_spec L PU Q : 0 <= L -> 0 <= Q -> 0 <= PU -> L + Q < 18446744073709551616 -> PU < 18446744073709551616 ->
   Validation_NextPeriodTVL L PU Q = if L + Q <? PU then None else Some (L + Q - PU).
 Proof.
-  intros HL HQ HPU Hfit. unfold Validation_NextPeriodTVL. cbv zeta. rewrite (wrap64_small (L + Q)) by (unfold u64; lia).
-  destruct (L + Q <? PU) eqn:E; [reflexivity|]. rewrite wrap64_small by (unfold u64; lia). reflexivity.
+  intros HL HQ HPU Hfit HPU'. rewrite next_period_tvl_char by (unfold u64; lia). rewrite Z.mod_small by lia. reflexivity.
 Qed.
 
 (* ---- Delegation.Started / Ended / IsLocked *)
-
-Theorem started_spec F P CP St S c :
-  Delegation_Started F P CP St S c =
-  if (St =? 1) || (St =? 0) then Some false
-  else match Validation_CurrentIteration P CP St S c with None => None | Some it => Some (F <=? it) end.
-Proof. reflexivity. Qed.
 
 Theorem ended_spec L F P CP St S c :
   Delegation_Ended L F P CP St S c =
@@ -225,24 +307,22 @@ Theorem ended_spec L F P CP St S c :
        | Some it => Some (((St =? 3) && (F <=? it)) || match L with None => false | Some l => l <? it end)
        end.
 Proof.
-  unfold Delegation_Ended. rewrite started_spec.
-  destruct (St =? 1) eqn:E1; [reflexivity|]. destruct (St =? 0) eqn:E0; cbn [orb].
-  - (* Unknown: CurrentIteration = Some 0, Started = Some false *)
-    assert (St = 0) as -> by lia. cbn. destruct L; reflexivity.
-  - destruct (Validation_CurrentIteration P CP St S c) as [it|]; [|reflexivity].
-    destruct (St =? 3); cbn [andb orb]; [destruct (F <=? it); [reflexivity|]|]; destruct L; reflexivity.
+  rewrite ended_char. destruct (St =? 1); [reflexivity|].
+  destruct (Validation_CurrentIteration P CP St S c) as [it|]; [|reflexivity].
+  destruct (St =? 3) eqn:E3; [|reflexivity]. destruct (St =? 0) eqn:E0; [lia|reflexivity].
 Qed.
 
 (* Ended implies Started — for a delegation whose LastIteration, if set, is not before its FirstIteration (signalling the exit
    stores the current iteration of a started delegation, so every stored delegation satisfies this) *)
-Theorem ended_implies_started L F P CP St S c :
+Theorem ended_implies_started L F P CP St S c : u32 S -> u32 c ->
   0 <= F -> (forall l, L = Some l -> F <= l) ->
   Delegation_Ended L F P CP St S c = Some true -> Delegation_Started F P CP St S c = Some true.
 Proof.
-  intros HF HL. rewrite ended_spec, started_spec.
+  intros HS Hc HF HL. rewrite ended_spec, started_spec.
   destruct (St =? 1); [discriminate|]. cbn [orb].
   destruct (St =? 0) eqn:E0.
-  - assert (St = 0) as -> by lia. cbn. destruct L as [l|]; [|discriminate]. specialize (HL l eq_refl). intros [= H]. lia.
+  - assert (St = 0) as -> by lia. rewrite current_iteration_char by assumption. cbn.
+    destruct L as [l|]; [|discriminate]. specialize (HL l eq_refl). intros [= H]. lia.
   - destruct (Validation_CurrentIteration P CP St S c) as [it|]; [|discriminate].
     intros [= H]. f_equal. destruct (F <=? it) eqn:E; [reflexivity|].
     rewrite andb_false_r in H. cbn [orb] in H. destruct L as [l|]; [|discriminate].
@@ -253,19 +333,6 @@ Qed.
 Example ended_without_started_if_last_before_first :
   Delegation_Ended (Some 2) 5 10 0 2 0 25 = Some true /\ Delegation_Started 5 10 0 2 0 25 = Some false.
 Proof. vm_compute. split; reflexivity. Qed.
-
-Theorem is_locked_spec Stk L F P CP St S c :
-  Delegation_IsLocked Stk L F P CP St S c =
-  if Stk =? 0 then Some false
-  else match Delegation_Started F P CP St S c, Delegation_Ended L F P CP St S c with
-       | Some s, Some e => Some (s && negb e)
-       | _, _ => None
-       end.
-Proof.
-  unfold Delegation_IsLocked. destruct (Stk =? 0); [reflexivity|].
-  destruct (Delegation_Started F P CP St S c); [|reflexivity].
-  destruct (Delegation_Ended L F P CP St S c); reflexivity.
-Qed.
 
 Theorem is_locked_iff Stk L F P CP St S c :
   Delegation_IsLocked Stk L F P CP St S c = Some true <->
@@ -340,20 +407,21 @@ Theorem current_iteration_agrees v b : val_in_range v -> (b < 4294967295)%N ->
   gen_current_iteration v b = res_Z (current_iteration v b).
 Proof.
   unfold val_in_range, n32. intros [HP [HC HS]] Hb.
-  unfold gen_current_iteration, current_iteration, Validation_CurrentIteration, StatusUnknown, StatusQueued, StatusExit.
+  unfold gen_current_iteration. rewrite current_iteration_char by (unfold u32; lia).
+  unfold current_iteration, StatusUnknown, StatusQueued, StatusExit.
   destruct (N.eqb_spec (v_status v) 0) as [E0|E0]; [rewrite E0; reflexivity|].
   destruct (Z.eqb_spec (Z.of_N (v_status v)) 0) as [F0|_]; [lia|].
   destruct (N.eqb_spec (v_status v) 1) as [E1|E1]; [rewrite E1; reflexivity|].
   destruct (Z.eqb_spec (Z.of_N (v_status v)) 1) as [F1|_]; [lia|]. cbn [orb].
   destruct (N.eqb_spec (v_status v) 3) as [E3|E3]; [rewrite E3; reflexivity|].
-  destruct (Z.eqb_spec (Z.of_N (v_status v)) 3) as [F3|_]; [lia|].
+  destruct (Z.eqb_spec (Z.of_N (v_status v)) 3) as [F3|_]; [lia|]. cbn [orb].
   destruct (N.ltb_spec 0 (v_completed v)) as [Ec|Ec]; destruct (Z.ltb_spec 0 (Z.of_N (v_completed v))) as [Fc|Fc]; try lia; [reflexivity|].
   destruct (N.ltb_spec b (v_start v)) as [Es|Es]; destruct (Z.ltb_spec (Z.of_N b) (Z.of_N (v_start v))) as [Fs|Fs]; try lia; [reflexivity|].
+  cbn [orb].
   destruct (N.eqb_spec (v_period v) 0) as [Ep|Ep]; destruct (Z.eqb_spec (Z.of_N (v_period v)) 0) as [Fp|Fp]; try lia; [reflexivity|].
-  cbv zeta. cbn [res_Z]. f_equal.
-  rewrite (wrap32_small (Z.of_N b - Z.of_N (v_start v))) by (unfold u32; lia).
+  cbn [res_Z]. f_equal.
   pose proof (div_le_self (Z.of_N b - Z.of_N (v_start v)) (Z.of_N (v_period v)) ltac:(lia) ltac:(lia)).
-  rewrite wrap32_small by (unfold u32; lia).
+  rewrite Z.mod_small by lia.
   rewrite N2Z.inj_add, N2Z.inj_div, N2Z.inj_sub by lia. reflexivity.
 Qed.
 
@@ -376,9 +444,9 @@ Qed.
 Theorem is_period_end_agrees v b : val_in_range v -> n32 b -> gen_is_period_end v b = is_period_end v b.
 Proof.
   unfold val_in_range, n32. intros [HP [HC HS]] Hb.
-  unfold gen_is_period_end, is_period_end, Validation_IsPeriodEnd, sub32. cbv zeta.
-  assert (E : wrapU 32 (Z.of_N b - Z.of_N (v_start v)) = Z.of_N ((b + 4294967296 - v_start v) mod 4294967296)%N).
-  { unwrap. rewrite N2Z.inj_mod, N2Z.inj_sub, N2Z.inj_add by lia. change (Z.of_N 4294967296) with 4294967296.
+  unfold gen_is_period_end. rewrite is_period_end_char. unfold is_period_end, sub32.
+  assert (E : (Z.of_N b - Z.of_N (v_start v)) mod 4294967296 = Z.of_N ((b + 4294967296 - v_start v) mod 4294967296)%N).
+  { rewrite N2Z.inj_mod, N2Z.inj_sub, N2Z.inj_add by lia. change (Z.of_N 4294967296) with 4294967296.
     replace (Z.of_N b + 4294967296 - Z.of_N (v_start v)) with (Z.of_N b - Z.of_N (v_start v) + 1 * 4294967296) by lia.
     rewrite Z.mod_add by lia. reflexivity. }
   rewrite E. rewrite <- N2Z.inj_mod.
@@ -393,8 +461,8 @@ Definition cooldown_fits (c : cfg) (v : validation) : Prop :=
 
 Theorem cooldown_ended_agrees c v b : cooldown_fits c v -> gen_cooldown_ended c v b = cooldown_ended c v b.
 Proof.
-  unfold cooldown_fits, gen_cooldown_ended, cooldown_ended, Validation_CooldownEnded. destruct (v_exit v) as [e|]; [|reflexivity].
-  intros H. cbn [zo]. rewrite wrap32_small by (unfold u32; lia).
+  unfold cooldown_fits, gen_cooldown_ended, cooldown_ended. rewrite cooldown_ended_char. destruct (v_exit v) as [e|]; [|reflexivity].
+  intros H. cbn [zo]. rewrite Z.mod_small by lia.
   destruct (N.leb_spec (e + c_cooldown c) b); [apply Z.leb_le|apply Z.leb_gt]; lia.
 Qed.
 
@@ -418,7 +486,7 @@ Qed.
 
 Theorem multiplier_agrees v : gen_multiplier v = Z.of_N (v_multiplier v).
 Proof.
-  unfold gen_multiplier, v_multiplier, Validation_multiplier, Multiplier, MultiplierWithDelegations.
+  unfold gen_multiplier. rewrite multiplier_spec. unfold v_multiplier, Multiplier, MultiplierWithDelegations.
   destruct (N.eqb_spec (v_weight v) (v_locked v)) as [E|E].
   - rewrite E, Z.eqb_refl. reflexivity.
   - destruct (Z.eqb_spec (Z.of_N (v_weight v)) (Z.of_N (v_locked v))); [lia|reflexivity].
